@@ -216,4 +216,24 @@ def HeloSrc.get : Fld → Helo → Option EV
   | .OptionsKeepalive, m => m.options.map fun o => .bool o.keepalive
   | _, _ => none
 
+/-! ### EntryList encoders: header from the length, one pass of the body per element -/
+
+inductive LEStmt
+  | plain (s : EStmt)
+  | hdrLen                          -- AppendArrayHeader(o, uint32(len(z))) / WriteArrayHeader(uint32(len(z)))
+  | forRange (body : List EStmt)    -- `for i := range z { body }`, the body working on `z[i]`
+
+def eloop (body : List EStmt) : List (Instant × GoVal) → (St → ERes) → St → ERes
+  | [], k, s => k s
+  | e :: es, k, s => eexecs EntryExtSrc.get ⟨e.1, e.2⟩ body (eloop body es k) s
+
+def eexecL (src : List (Instant × GoVal)) : List LEStmt → (St → ERes) → St → ERes
+  | [], k, s => k s
+  | .plain st :: rest, k, s => eexec (fun _ (_ : List (Instant × GoVal)) => none) src st (eexecL src rest k) s
+  | .hdrLen :: rest, k, s => eexecL src rest k { s with out := s.out ++ appendArrayHeader src.length }
+  | .forRange body :: rest, k, s => eloop body src (eexecL src rest k) s
+
+def runLE (body : List LEStmt) (src : List (Instant × GoVal)) (pre : Bytes) : ERes :=
+  eexecL src body (fun _ => .panic "missing return") { out := pre }
+
 end FV.Sk
